@@ -84,7 +84,15 @@ pub async fn start_real_node(w: &World, i: usize, dir: &str, p: &NodeParams) {
     // The drain task belongs to the harness (node 0) but records the node id.
     simnet::set_current_node(0);
     tokio::spawn(async move {
-        while let Some(block) = node.commit.recv().await {
+        loop {
+            // a lagging application: while paused, nothing is taken from the commit channel
+            while COMMIT_DRAIN_PAUSED.with(|p| p.get()) {
+                tokio::time::sleep(std::time::Duration::from_millis(1)).await;
+            }
+            let block = match node.commit.recv().await {
+                Some(b) => b,
+                None => break,
+            };
             log(Ev::Commit {
                 node: id,
                 block: Rc::new(block),
@@ -92,6 +100,15 @@ pub async fn start_real_node(w: &World, i: usize, dir: &str, p: &NodeParams) {
         }
     });
     simnet::set_current_node(prev);
+}
+
+thread_local! {
+    static COMMIT_DRAIN_PAUSED: std::cell::Cell<bool> = std::cell::Cell::new(false);
+}
+
+/// Pause / resume the harness task that plays the application reading a node's commit channel.
+pub fn set_commit_drain_paused(paused: bool) {
+    COMMIT_DRAIN_PAUSED.with(|p| p.set(paused));
 }
 
 /// What the puppets have received from real nodes; read by the scripts to react.
